@@ -35,6 +35,8 @@ class SpecRegistry:
         for st in self.tree.body:
             if isinstance(st, ast.FunctionDef):
                 kind, sig, fuel = 'inline', None, 1
+                if any(isinstance(d, ast.Name) and d.id == 'primitive' for d in st.decorator_list):
+                    continue
                 for d in st.decorator_list:
                     if isinstance(d, ast.Call) and isinstance(d.func, ast.Name) and d.func.id in ('recursive', 'uninterpreted'):
                         kind = d.func.id
@@ -228,6 +230,21 @@ def use_lemmas(ip, st, exprs, env):
         calls = [node] if isinstance(node, ast.Call) else []
         if not calls or not isinstance(node.func, ast.Name) or node.func.id not in ip.specs.lemmas:
             raise Unsupported('`use` clause %r is not a lemma instance' % e)
-        v = ip.eval_spec(node, st, env)
-        st.assume(ip._z(ip.truth(v, st)))
-        ip.used_lemmas.add(node.func.id)
+        name = node.func.id
+        lem = ip.specs.lemmas[name]
+        stmt = ip._z(ip.truth(ip.eval_spec(node, st, env), st))
+        if lem['requires']:
+            # the instance is  requires(args) -> statement(args)
+            f = ip.specs.funs[name]
+            params = [a.arg for a in f.node.args.args]
+            args = [ip.eval_spec(a, st, env) for a in node.args]
+            env2 = dict(env)
+            env2.update(dict(zip(params, args)))
+            st.push_frame(dict(zip(params, args)), {'module': '$spec', 'cls': None, 'qual': 'lemma-req:' + name, 'closure': ()})
+            try:
+                req = ip._z(ip.truth(ip.eval(ast.parse(lem['requires'], mode='eval').body, st), st))
+            finally:
+                st.pop_frame()
+            stmt = z3.Implies(req, stmt)
+        st.assume(stmt)
+        ip.used_lemmas.add(name)
